@@ -8,7 +8,7 @@ from ..oracles import zonal as Z
 
 PROP = "C04"
 RULE = ("Generator: zones rasters (int32/int64/float32/float64 ids incl. negative and fractional, scattered per cell, NaN/+-inf zone cells) x "
-        "2-D categorical values (small int/float alphabets, NaN/inf cells) x nodata {None, present value, absent value} x zone_ids / cat_ids "
+        "2-D categorical values (small int/float alphabets, NaN/+-inf cells; zones/values independently C-/Fortran-ordered or strided views) x nodata {None, present value, absent value} x zone_ids / cat_ids "
         "(subsets, permutations, absent ids, or None) x agg {count, percentage}; 3-D values (layer dim at position 0/1/2 via `layer`) x seven "
         "aggregates (NumPy) / count (Dask); NumPy backend and Dask backend with a drawn chunking. Oracle: brute-force contingency table by mask "
         "arithmetic; restricted call must equal the unrestricted reference restricted to the requested rows/columns, rows matched by zone label. "
@@ -24,7 +24,7 @@ CAT_ALPH = {"int": [0, 1, 2, 5, 7, 9], "float": [0.0, 1.0, 2.5, 5.0, 7.0, -3.0]}
 
 def _mk(case, key, backend, chunks):
     import xarray as xr
-    a = dec_arr(case[key])
+    a = S.apply_layout(dec_arr(case[key]), case.get(key + "_layout", "C"))
     if backend == "dask":
         import dask.array as da
         a = da.from_array(a, chunks=chunks)
@@ -90,7 +90,10 @@ def body_ct2d(case, ctx):
     agg = case["agg"]
     ids, cats, counts, totals = Z.ref_crosstab_2d(zn, vn, nodata)
     r = R()
-    r.label("agg=" + agg, "backend=" + backend, "zdtype=" + str(zn.dtype), "vdtype=" + str(vn.dtype))
+    r.label("agg=" + agg, "backend=" + backend, "zdtype=" + str(zn.dtype), "vdtype=" + str(vn.dtype),
+            "layouts=%s/%s" % (case.get("zones_layout", "C"), case.get("values_layout", "C")))
+    if vn.dtype.kind == "f" and np.isneginf(vn).any():
+        r.label("neg_inf_value")
 
     def expect(z, c):
         t = counts[z][c]
@@ -230,7 +233,7 @@ def ct2d_cases(draw, max_side):
     vdtype = draw(st.sampled_from(["int32", "int64", "uint8"])) if ckind == "int" else draw(st.sampled_from(["float64", "float32"]))
     nc = draw(st.integers(1, 6))
     calph = draw(st.permutations([c for c in CAT_ALPH[ckind] if not (vdtype == "uint8" and c < 0)]))[:nc]
-    vdata = draw(S.grid(h, w, calph, specials=["nan", "inf"] if ckind == "float" else []))
+    vdata = draw(S.grid(h, w, calph, specials=["nan", "inf", "-inf"] if ckind == "float" else []))
     values = {"dtype": vdtype, "data": vdata}
     nodata = draw(st.sampled_from([None, None, calph[0], 99]))
     zpres = _present(zones)
@@ -242,7 +245,8 @@ def ct2d_cases(draw, max_side):
     if "c" in mode and cpres:
         cat_ids = draw(S.id_list(cpres, extra=[42] if ckind == "int" else [42.5]))
     case = {"sub": "ct2d", "zones": zones, "values": values, "nodata": nodata, "zone_ids": zone_ids, "cat_ids": cat_ids,
-            "agg": draw(st.sampled_from(["count", "percentage"]))}
+            "agg": draw(st.sampled_from(["count", "percentage"])),
+            "zones_layout": draw(st.sampled_from(["C", "C", "F", "view"])), "values_layout": draw(st.sampled_from(["C", "C", "F", "view"]))}
     case.update(draw(backend_bits(h, w)))
     return case
 
@@ -258,7 +262,7 @@ def ct3d_cases(draw, max_side):
     agg = "count" if case["backend"] == "dask" else draw(st.sampled_from(Z.STAT_NAMES))
     vdtype = draw(st.sampled_from(["float64", "float32", "int32"]))
     pal = [0, 1, 2, 3, 4, 7]
-    specials = ["nan"] if (vdtype.startswith("float") and agg not in ("min", "max")) else []
+    specials = ["nan", "-inf", "inf"] if (vdtype.startswith("float") and agg not in ("min", "max")) else []
     layers = [draw(S.grid(h, w, pal, specials=specials)) for _ in range(L)]
     nodata = None if agg in ("min", "max") else draw(st.sampled_from([None, 0, 99]))
     layer = draw(st.integers(0, 2))
